@@ -866,6 +866,7 @@ impl<'a> Tc<'a> {
 		let w = self.w.clone();
 		let tid = self.tid;
 		w.begin_call(tid, Class::Release, "release", false);
+		let _probe = GuardReleaseScope::enter();
 		if acq.api == Api::GuardUnlock {
 			let k = held.unlock();
 			w.end_call(tid);
@@ -938,6 +939,19 @@ pub fn in_unwind<T>(f: impl FnOnce() -> T) -> T {
 	}
 }
 
+/// While alive, the audit raw locks probe `ThreadKey::get()` inside every raw unlock (C03).
+pub struct GuardReleaseScope(bool);
+impl GuardReleaseScope {
+	pub fn enter() -> Self {
+		GuardReleaseScope(crate::audit::GUARD_RELEASE.with(|g| g.replace(true)))
+	}
+}
+impl Drop for GuardReleaseScope {
+	fn drop(&mut self) {
+		crate::audit::GUARD_RELEASE.with(|g| g.set(self.0));
+	}
+}
+
 /// A guard that is handed back through the explicit `Type::unlock(guard)` function even when the
 /// critical section unwinds: the destructor of an application object that owns the guard.
 struct EndHold<'h> {
@@ -947,6 +961,7 @@ struct EndHold<'h> {
 impl Drop for EndHold<'_> {
 	fn drop(&mut self) {
 		if let Some(h) = self.held.take() {
+			let _probe = GuardReleaseScope::enter();
 			if self.explicit {
 				drop(h.unlock());
 			} else {
